@@ -80,6 +80,8 @@ def symmetry(ck, R, body, match, variants, what):
 
 
 def run(ck, facts, tier):
+    from props.c14 import varvar_table
+    varvar_table(ck, facts, "C15.VAR-VAR-SYMMETRY", symmetric_only=True)
     ck.trusted.append("ena::unify snapshot/rollback_to/commit")
     rel = need_body(ck, facts, "C15.PAIRING", IT + "::relate")
     R = "C15.PAIRING"
